@@ -287,3 +287,30 @@ func arity(n int) string {
 	}
 	return ""
 }
+
+// hWarp is a ball whose field is a non-linear monotone function of the distance to its surface
+// (sign(d)*|d|^P): a legitimate Metaball - the interface only asks MetaballDistBound to be
+// non-decreasing, and says explicitly that fields need not be Euclidean distances.
+type hWarp struct {
+	c C3
+	r float64
+	P float64
+}
+
+func (h *hWarp) Min() C3 { return C3{X: h.c.X - h.r, Y: h.c.Y - h.r, Z: h.c.Z - h.r} }
+func (h *hWarp) Max() C3 { return C3{X: h.c.X + h.r, Y: h.c.Y + h.r, Z: h.c.Z + h.r} }
+func (h *hWarp) MetaballField(p C3) float64 {
+	d := -refSphereSDF(h.c, h.r, p)
+	if d < 0 {
+		return -math.Pow(-d, h.P)
+	}
+	return math.Pow(d, h.P)
+}
+func (h *hWarp) MetaballDistBound(d float64) float64 {
+	if d < 0 {
+		return -math.Pow(-d, h.P)
+	}
+	return math.Pow(d, h.P)
+}
+
+var _ model3d.Metaball = (*hWarp)(nil)
